@@ -1238,6 +1238,9 @@ func (b *byteChooser) n(max int) int {
 
 func pick(ch chooser, list []string) string { return list[ch.n(len(list)-1)] }
 
+// signatureIdents: identifiers (and one operator run) whose first bytes are the magic numbers content sniffers know
+var signatureIdents = []string{"BMI_LIMIT", "BM", "ID3_HEADER", "OTTO", "ttcf", "wOFF2", "GIF89a", "GIF87a", "RIFFxxxxWAVEfmt", "RIFFxxxxAVI", "PK", "MZ", "Rar", "FORMxxxxAIFF", "MThd", "OggS", "fLaC", "FWS", "ustar", "II", "MM"}
+
 var (
 	idents     = []string{"x", "foo", "TODO", "todo", "FIXME", "i1", "$v", "_a", "naïve", "变量", "class", "return", "true", "null"}
 	numbers    = []string{"0", "42", "3.14", "0x1F", "1e9", "1_000", "10L", ".5", "07"}
@@ -1699,6 +1702,11 @@ func genCaseFor(ch chooser, maxFiles, maxSegs int, forCLI bool) Case {
 		f := SrcFile{Path: path, Segs: genSegs(ch, maxSegs), Bom: ch.n(19) == 19}
 		if f.Bom && len(f.Segs) > 1 && f.Segs[0].K == kWs && ch.n(1) == 1 {
 			f.Segs = f.Segs[1:] // the first token directly after the byte order mark
+		}
+		// seventh seed batch: a source text whose first bytes read like the signature of a binary format
+		// (a script that opens with the constant BMI_LIMIT, ID3_HEADER, GIF89a ...) is still a source text
+		if !f.Bom && ch.n(9) == 9 {
+			f.Segs = append([]Seg{{K: kCode, T: pick(ch, signatureIdents)}, {K: kWs, T: pick(ch, []string{" ", "\n", " = 1\n"})}}, f.Segs...)
 		}
 		c.Files = append(c.Files, f)
 	}
